@@ -367,3 +367,17 @@ FUNDAMENTALS = {'void', 'int', 'char', 'long', 'short', 'float', 'double', 'bool
 
 def show(t, name='x'):
     return ' '.join(print_decl(t, name))
+
+
+def final_as_name(toks):
+    """`final` inside a parenthesis: the implementation reads it as a parameter NAME (Parse/ParamsX.v models that); the basic
+    parameter model of Parse/Declarator.v, which the statement models use, reads names of type NAME only and stops with code 1"""
+    depth = 0
+    for t in toks:
+        if t == '(':
+            depth += 1
+        elif t == ')':
+            depth = max(0, depth - 1)
+        elif t == 'final' and depth > 0:
+            return True
+    return False
